@@ -109,6 +109,26 @@ func checkWrite(r *vk.Run, wc writeCase) {
 	} else {
 		out = rtmp.VerifMessage2Chunks(msg, &h, prev, wc.ChunkSize)
 	}
+	// lal queues the chunks for an asynchronous writer: serialising the next message must not change them
+	{
+		held := append([]byte{}, out...)
+		h2 := h
+		h2.Csid = wc.Csid ^ 1
+		h2.TimestampAbs = wc.Ts ^ 0xFFFFFF
+		m2 := payload(wc.Len, byte(wc.Csid)^0x5a)
+		if prev == nil && wc.ChunkSize == rtmp.LocalChunkSize {
+			rtmp.Message2Chunks(m2, &h2)
+		} else {
+			rtmp.VerifMessage2Chunks(m2, &h2, nil, wc.ChunkSize)
+		}
+		if !bytes.Equal(out, held) {
+			r.Violation("write/held-output-changed", fmt.Sprintf("case=%+v: the chunks returned for this message changed when the next message was serialised", wc), replay{Write: &wc})
+			out = held
+		}
+		if !bytes.Equal(msg, payload(wc.Len, byte(wc.Csid))) {
+			r.Violation("write/mutates-input", fmt.Sprintf("case=%+v: the payload handed in was modified", wc), replay{Write: &wc})
+		}
+	}
 	want := ref.Msg{Csid: wc.Csid, Type: wc.Type, Msid: uint32(wc.Msid), Ts: wc.Ts, Payload: msg}
 	nchunks := 0
 	if wc.Len > 0 {
